@@ -47,3 +47,82 @@ shape_to_key = Contract(
 )
 
 ALL = [shape_to_strides, shape_to_key]
+
+
+# ---- records and methods of ArraySpec / MapSpec ---------------------------------------------------------------------
+from pyvc.types import TBool, TDict, TNone, TOpt, TRec, TSeq, TSet, TStr  # noqa: E402
+
+from .ty import ArraySpecT, MapSpecT, SArraySpec  # noqa: E402
+
+SS = TSeq(TStr)
+
+arrayspec_rank = Contract(
+    f"{F}::ArraySpec.rank", params={"self": ArraySpecT}, returns=TInt,
+    ensures=lambda S, a, r, post: {"rank-is-number-of-axes": r == S.len(a.self.axes)},
+)
+
+arrayspec_validate = Contract(
+    f"{F}::ArraySpec.validate", params={"self": ArraySpecT, "shape": SI}, returns=TNone,
+    raises=[("ValueError", lambda S, a: S.len(a.shape) != S.len(a.self.axes))],
+    ensures=lambda S, a, r, post: {},
+)
+
+mapspec_input_names = Contract(
+    f"{F}::MapSpec.input_names", params={"self": MapSpecT}, returns=SS,
+    ensures=lambda S, a, r, post: {
+        "len": S.len(r) == S.len(a.self.inputs),
+        "names": S.forall(0, S.len(a.self.inputs), lambda i: S.eq(r[i], a.self.inputs[i].name)),
+    },
+)
+mapspec_output_names = Contract(
+    f"{F}::MapSpec.output_names", params={"self": MapSpecT}, returns=SS,
+    ensures=lambda S, a, r, post: {
+        "len": S.len(r) == S.len(a.self.outputs),
+        "names": S.forall(0, S.len(a.self.outputs), lambda i: S.eq(r[i], a.self.outputs[i].name)),
+    },
+)
+
+DSI = TDict(TStr, SI)
+get_output_dim = Contract(
+    f"{F}::_get_output_dim", params={"output": ArraySpecT, "internal_shapes": DSI, "internal_shape_index": TInt},
+    returns=TInt,
+    requires=lambda S, a: {"index>=0": a.internal_shape_index >= 0},
+    raises=[("ValueError", lambda S, a: S.or_(
+        S.not_(S.has(a.internal_shapes, a.output.name)),
+        lambda: a.internal_shape_index >= S.len(a.internal_shapes[a.output.name])))],
+    ensures=lambda S, a, r, post: {"dim": r == a.internal_shapes[a.output.name][a.internal_shape_index]},
+    note="internal shapes are modelled as tuples of ints: the TypeError branch for non-int entries is not reachable in "
+         "the model (checked on the bounded rung)",
+)
+
+# the set-valued property is not in the engine's subset (double comprehension into a set): assumed, bounded-checked
+mapspec_input_indices = Contract(
+    f"{F}::MapSpec.input_indices", params={"self": MapSpecT}, returns=TSet(TStr), trusted=True,
+    ensures=lambda S, a, r, post: ({"set-of-named-input-axes": r == {ax for x in a.self.inputs for ax in x.axes
+                                                                    if ax is not None}} if not S.symbolic else {}),
+    note="set comprehension with two generators: outside the engine's subset; its cardinality enters output_key",
+)
+
+mapspec_output_key = Contract(
+    f"{F}::MapSpec.output_key", params={"self": MapSpecT, "shape": SI, "linear_index": TInt}, returns=SI,
+    requires=lambda S, a: {"positive-dims": all_pos(S, a.shape)},
+    raises=[("ValueError", lambda S, a: S.len(a.shape) != _n_input_indices(S, a.self))],
+    ensures=lambda S, a, r, post: {
+        "len": S.len(r) == S.len(a.shape),
+        "row-major-unravel": S.forall(0, S.len(a.shape), lambda i: r[i] == S.mod(
+            S.div(a.linear_index, S.prod(a.shape, i + 1, S.len(a.shape))), a.shape[i])),
+    },
+)
+
+
+def _n_input_indices(S, ms):
+    if not S.symbolic:
+        return len({ax for x in ms.inputs for ax in x.axes if ax is not None})
+    import z3
+    from pyvc.types import TSet as _TSet
+    f = z3.Function("fn:MapSpec.input_indices", MapSpecT.sort(), _TSet(TStr).sort())
+    return _TSet(TStr).card(f(ms.t))
+
+
+ALL += [arrayspec_rank, arrayspec_validate, mapspec_input_names, mapspec_output_names, get_output_dim,
+        mapspec_input_indices, mapspec_output_key]
